@@ -130,3 +130,55 @@ Proof. eexists. split; [vm_compute; reflexivity|]. vm_compute. reflexivity. Qed.
 Example C06_nonvacuous_dH : dH (mkchem exHf exMW [512;256;1024;128;64;2048] [128;32;16;64;8;256] [2;2;1;1;3;2]%nat) exR
   = Ok ((1 # 2) * vdot exHf (st exR)).
 Proof. reflexivity. Qed.
+
+(* ---------- conversions assigned through the set, its items, slices or the system ---------- *)
+(* after ANY history of such assignments every member of the object keeps its stoichiometry,
+   reactant, basis and phases and carries entry k of the one conversions array — the entry that
+   every handle (item, slice, item of a slice; obtained before or after) reads.  Reaction.dH of
+   a handle is therefore the heat of reaction the object applies. *)
+Theorem C06_conversions_shared : forall o ops k r,
+  nth_error (flat_members (apply_xhist o ops)) k = Some r ->
+  exists r0, nth_error (flat_members o) k = Some r0 /\
+    X r = nthq (xrun (map X (flat_members o)) ops) k /\
+    st r = st r0 /\ ridx r = ridx r0 /\ wt r = wt r0 /\ phases r = phases r0.
+Proof. exact xhist_member_lemma. Qed.
+Print Assumptions C06_conversions_shared.
+
+Theorem C06_conversions_members : forall o ops,
+  flat_members (apply_xhist o ops) = map2 set_X (flat_members o) (xrun (map X (flat_members o)) ops).
+Proof. exact xhist_members_lemma. Qed.
+Print Assumptions C06_conversions_members.
+
+(* isothermal, parallel and series sets (molar, no clamp): Hnet changes by the sum over the members of
+   X_k * (Hf . S_k) — their reported dH (C06_dH_mol) — times the reactant each one was fed: the feed
+   for parallel reactions, the running composition for series reactions; plus the sensible term *)
+Theorem C06_isothermal_parallel : forall Hfun hf hs w rs s s',
+  (forall m T, Hfun m T == vdot (hs T) m) ->
+  Forall (wf (length (smol s))) rs -> nonneg (react_parallel rs (smol s)) ->
+  isothermal w (Simple false (Parallel rs)) s = (None, s') ->
+  Hnet Hfun hf s' - Hnet Hfun hf s ==
+    heat_parallel hf (smol s) rs + (vdot (hs (sT s)) (smol s') - vdot (hs (sT s)) (smol s)).
+Proof. exact isothermal_parallel_lemma. Qed.
+Print Assumptions C06_isothermal_parallel.
+
+Theorem C06_isothermal_series : forall Hfun hf hs w rs s s',
+  (forall m T, Hfun m T == vdot (hs T) m) ->
+  Forall (wf (length (smol s))) rs -> nonneg (react_series rs (smol s)) ->
+  isothermal w (Simple false (Series rs)) s = (None, s') ->
+  Hnet Hfun hf s' - Hnet Hfun hf s ==
+    heat_series hf rs (smol s) + (vdot (hs (sT s)) (smol s') - vdot (hs (sT s)) (smol s)).
+Proof. exact isothermal_series_lemma. Qed.
+Print Assumptions C06_isothermal_series.
+
+(* non-vacuity: a history whose writes overlap; a reaction with one chemical in two phases, whose
+   two entries get different latent heats *)
+Example C06_nonvacuous_xhist :
+  let o := Simple false (Parallel [exR; mkrxn [0; -1; 0; 0; 2; 0] 1 (1 # 4) false []]) in
+  map X (flat_members (apply_xhist o [XRange 0 [1 # 8; 3 # 4]; XWrite 1 (1 # 2)])) = [1 # 8; 1 # 2].
+Proof. reflexivity. Qed.
+
+Example C06_nonvacuous_two_phases :
+  let c := mkchem exHf exMW [512;256;1024;128;64;2048] [128;32;16;64;8;256] [2;2;1;1;3;2]%nat in
+  let r := mkrxn [-1; 0; 0; 0; 0; 1 # 2;   0; 2; 0; 0; 0; 1 # 2] 0 (1 # 2) false [1; 2]%nat in
+  exists d, dH c r = Ok d /\ d == 1088.
+Proof. eexists. split; [vm_compute; reflexivity|]. reflexivity. Qed.
